@@ -38,7 +38,7 @@ pub fn sweep_u32(ctx: &mut Ctx, name: &'static str, key: &str, full: bool, evals
             J::obj()
                 .set("sweep", name)
                 .set("block", blk)
-                .set("domain", if full { "all 2^32 values, block = 2^20 consecutive values" } else { "lattice h<<16|l, h all 65536 values, l in 0..=15 and 0xFFF0..=0xFFFF; block = 1024 values of h" })
+                .set("domain", if full { "all 2^32 values, block = 2^20 consecutive values" } else { "lattice h<<16|l, h all 65536 values, l in 0..=31 and 0xFFE0..=0xFFFF; block = 1024 values of h" })
         };
         ctx.leaf(describe, |ctx| {
             let cur = Cell::new(0u32);
@@ -64,7 +64,7 @@ pub fn sweep_u32(ctx: &mut Ctx, name: &'static str, key: &str, full: bool, evals
                     }
                 } else {
                     for h in (blk << 10)..((blk + 1) << 10) {
-                        for l in (0..16u32).chain(0xFFF0..0x1_0000) {
+                        for l in (0..32u32).chain(0xFFE0..0x1_0000) {
                             one((h as u32) << 16 | l);
                         }
                     }
